@@ -61,6 +61,8 @@ func main() {
 			usage()
 		}
 		os.Exit(replayFile(os.Args[2]))
+	case "c16worker":
+		os.Exit(c16Worker(os.Args[2:]))
 	case "selftest":
 		os.Exit(selftest(os.Args[2:]))
 	case "list":
